@@ -219,13 +219,15 @@ def template_regex(line: str, names: List[str]):
     return re.compile("".join(out) + r";?$"), seen
 
 
-def find_blocks(src: str, spec) -> List[Tuple[List[str], str, str]]:
-    """blocks `{ lines...; VAR = RES; }` whose VAR is a variable generated for this function: (lines, var, decl type)"""
+def find_blocks(src: str, res_names) -> List[tuple]:
+    """blocks `{ lines...; VAR = RES; }` (RES one of the functions' result names, VAR any variable): (lines, var, declaration of VAR, closed, RES).
+    Found by structure only - the name the translator gives VAR is its own business."""
     lines = [l.strip() for l in src.split("\n")]
     lines = [l for l in lines if l]
     out = []
+    alt = "|".join(re.escape(r) for r in sorted(set(res_names), key=len, reverse=True))
     for i, l in enumerate(lines):
-        m = re.match(rf"^({re.escape(spec['name'])}\d+) = (?:static_cast<[^>]*>\()?{re.escape(spec['res'])}\)?;$", l)
+        m = re.match(rf"^([A-Za-z_]\w*) = (?:static_cast<[^>]*>\()?({alt})\)?;$", l)
         if not m:
             continue
         j = i - 1
@@ -239,43 +241,72 @@ def find_blocks(src: str, spec) -> List[Tuple[List[str], str, str]]:
         closed = i + 1 < len(lines) and lines[i + 1] == "}"
         var = m.group(1)
         decl = [x for x in lines[: max(j, 0)] if re.match(rf"^.*\b{re.escape(var)};$", x)]
-        out.append((list(reversed(body)) if body is not None else None, var, decl[-1] if decl else None, closed))
+        out.append((list(reversed(body)) if body is not None else None, var, decl[-1] if decl else None, closed, m.group(2)))
     return out
+
+
+def match_block(s, blk, rep):
+    """does this block instantiate the specification of s?  Raises Violation (not yet reported) if not; returns the binding."""
+    body, var, decl, closed, _res = blk
+    names = list(s["params"]) + ([s["mobj"]] if s["mobj"] else [])
+    if body is None or not closed:
+        raise Violation("not-isolated", f"the code of {s['name']} is not enclosed in its own {{}} block ending with the result copy", rep)
+    want_type = f"std::vector<{s['ret']}>" if s["ret_coll"] else s["ret"]
+    if decl is None or not decl.startswith(want_type + " "):
+        raise Violation("result-declaration", f"result variable {var} of {s['name']} is not declared before the block with type {want_type}: {decl!r}", rep)
+    code = s["md"]["code"]
+    if len(body) != len(code):
+        raise Violation("block-lines", f"{s['name']}: block holds {body}, the specification has {len(code)} lines", rep)
+    binding: Dict[str, str] = {}
+    for tl, el in zip(code, body):
+        rx, groups = template_regex(tl.rstrip(";") if not tl.endswith(";") else tl[:-1], names)
+        m = rx.match(el[:-1] if el.endswith(";") else el)
+        if not m:
+            raise Violation("substitution", f"{s['name']}: emitted line {el!r} is not the template {tl!r} with whole-word occurrences of {names} replaced", rep)
+        for g in groups:
+            n = names[int(g[1:])]
+            if binding.setdefault(n, m.group(g)) != m.group(g):
+                raise Violation("substitution", f"{s['name']}: parameter {n} replaced by {binding[n]!r} and by {m.group(g)!r} within one call", rep)
+    return binding
 
 
 def check_text(c, pkg, rep):
     src = pkg.files.get("query.cxx") or pkg.files.get("Analyzer.cc")
     overlaps = False
-    for s in c["specs"]:
-        if s["name"] + "(" not in c["text"]:
-            continue
-        blocks = find_blocks(src, s)
-        if not blocks:
-            raise Violation("no-block", f"no isolated block with a result copy was emitted for {s['name']}", rep)
-        names = list(s["params"]) + ([s["mobj"]] if s["mobj"] else [])
-        for body, var, decl, closed in blocks:
-            if body is None or not closed:
-                raise Violation("not-isolated", f"the code of {s['name']} is not enclosed in its own {{}} block ending with the result copy", rep)
-            want_type = f"std::vector<{s['ret']}>" if s["ret_coll"] else s["ret"]
-            if decl is None or not decl.startswith(want_type + " "):
-                raise Violation("result-declaration", f"result variable {var} of {s['name']} is not declared before the block with type {want_type}: {decl!r}", rep)
-            code = s["md"]["code"]
-            if len(body) != len(code):
-                raise Violation("block-lines", f"{s['name']}: block holds {body}, the specification has {len(code)} lines", rep)
-            binding: Dict[str, str] = {}
-            for tl, el in zip(code, body):
-                rx, groups = template_regex(tl.rstrip(";") if not tl.endswith(";") else tl[:-1], names)
-                m = rx.match(el[:-1] if el.endswith(";") else el)
-                if not m:
-                    raise Violation("substitution", f"{s['name']}: emitted line {el!r} is not the template {tl!r} with whole-word occurrences of {names} replaced", rep)
-                for g in groups:
-                    n = names[int(g[1:])]
-                    if binding.setdefault(n, m.group(g)) != m.group(g):
-                        raise Violation("substitution", f"{s['name']}: parameter {n} replaced by {binding[n]!r} and by {m.group(g)!r} within one call", rep)
+    used = [s for s in c["specs"] if s["name"] + "(" in c["text"]]
+    if not used:
+        return False
+    blocks = find_blocks(src, [s["res"] for s in used])
+    matched = {s["name"]: 0 for s in used}
+    for blk in blocks:
+        # the block must be an instance of (at least) one of the functions with this result name
+        cands = [s for s in used if s["res"] == blk[4]]
+        cands.sort(key=lambda s: not blk[1].startswith(s["name"]))  # message quality only
+        first_err = None
+        ok_any = False
+        for s in cands:
+            try:
+                binding = match_block(s, blk, rep)
+            except Violation as v:
+                first_err = first_err or v
+                continue
+            # (two functions with the same template both count this block: sound, if weaker)
+            matched[s["name"]] += 1
+            ok_any = True
+            names = list(s["params"]) + ([s["mobj"]] if s["mobj"] else [])
             # adversarial overlap: a parameter name occurs as a word inside another parameter's replacement
             for n, txt in binding.items():
                 if any(o != n and re.search(rf"\b{re.escape(o)}\b", txt) for o in names):
                     overlaps = True
+        if not ok_any and first_err is not None:
+            # event-collection fetches are blocks of the same form (`{ ...; jets3 = result; }`): only a block whose copy target is
+            # a number or a vector of numbers can be the result of one of the generated functions
+            decl = blk[2]
+            if decl is None or re.match(r"^(std::vector<\s*)?(double|float|int|bool|unsigned int|long)\b", decl):
+                raise first_err
+    for s in used:
+        if not matched[s["name"]]:
+            raise Violation("no-block", f"no isolated block with a result copy was emitted for {s['name']}", rep)
         for inc in s["includes"]:
             if f'#include "{inc}"' not in src:
                 raise Violation("include-missing", f'{s["name"]} asks for #include "{inc}" which is not in the source', rep)
